@@ -53,7 +53,7 @@ def judgeC12 (o : Obs) (place : Nat → Nat × Nat) (declMax : Nat → Nat → I
     dk ++ nd ++ rk ++ dc ++ tp
   all
 
-/-! ## Prop-level statement over the model state -/
+/-! ## Prop-level statement over the model state (its DataNode/Disk side `Core`) -/
 
 def sumI : Nat → (Nat → Int) → Int
   | 0, _ => 0
@@ -61,25 +61,41 @@ def sumI : Nat → (Nat → Int) → Int
 
 /-- the counters of server `s`, disk type `t`, recounted from the registered volumes and shards
     (vids 0..nVid) -/
-def recountVol (st : St) (s t : Nat) : Int := sumI (st.nVid + 1) fun vid => if (st.vols s t vid).isSome then 1 else 0
-def recountRem (st : St) (s t : Nat) : Int :=
-  sumI (st.nVid + 1) fun vid => match st.vols s t vid with | some v => b2i v.remote | none => 0
-def recountEc (st : St) (s t : Nat) : Int := sumI (st.nVid + 1) fun vid => (popcount (st.ecs s t vid) : Int)
+def volBit (x : Option VInfo) : Int := if x.isSome then 1 else 0
+def remBit (x : Option VInfo) : Int := match x with | some v => Core.b2i v.remote | none => 0
+def recountVol (c : Core) (s t : Nat) : Int := sumI (c.nVid + 1) fun vid => volBit (c.vols s t vid)
+def recountRem (c : Core) (s t : Nat) : Int := sumI (c.nVid + 1) fun vid => remBit (c.vols s t vid)
+def recountEc (c : Core) (s t : Nat) : Int := sumI (c.nVid + 1) fun vid => (popcount (c.ecs s t vid) : Int)
 
-def live (st : St) (s : Nat) (c : Counts) : Counts := if st.conn s then c else {}
+def live (c : Core) (s : Nat) (x : Counts) : Counts := if c.conn s then x else {}
 
 def sumC : Nat → (Nat → Counts) → Counts
   | 0, _ => {}
   | n + 1, f => (sumC n f).add (f n)
 
-/-- `N` = number of modelled servers -/
-structure CountersOk (st : St) (N : Nat) : Prop where
-  disk_vol : ∀ s t, st.conn s = true → (st.cDisk s t).vol = recountVol st s t
-  disk_rem : ∀ s t, st.conn s = true → (st.cDisk s t).rem = recountRem st s t
-  disk_ec : ∀ s t, st.conn s = true → (st.cDisk s t).ec = recountEc st s t
-  node : ∀ s t, st.conn s = true → st.cNode s t = st.cDisk s t
-  rack : ∀ dc r t, st.cRack dc r t = sumC N fun s => if st.dcOf s = dc ∧ st.rackOf s = r then live st s (st.cNode s t) else {}
-  dc : ∀ dc t, st.cDc dc t = sumC N fun s => if st.dcOf s = dc then live st s (st.cNode s t) else {}
-  topo : ∀ t, st.cTopo t = sumC N fun s => live st s (st.cNode s t)
+/-- rack, data center and topology counters (disk types 0 and 1) are the sums over the connected servers -/
+structure Sums (c : Core) (N : Nat) : Prop where
+  rack : ∀ dc r t, t < 2 → c.cRack dc r t = sumC N fun s => if c.dcOf s = dc ∧ c.rackOf s = r then live c s (c.cNode s t) else {}
+  dc : ∀ dc t, t < 2 → c.cDc dc t = sumC N fun s => if c.dcOf s = dc then live c s (c.cNode s t) else {}
+  topo : ∀ t, t < 2 → c.cTopo t = sumC N fun s => live c s (c.cNode s t)
+
+/-- every level above the disks equals the sum of the level below (`N` = number of modelled servers) -/
+structure HierOk (c : Core) (N : Nat) : Prop where
+  node : ∀ s t, c.conn s = true → c.cNode s t = c.cDisk s t
+  sums : Sums c N
+
+/-- the volume and remote-volume counters of every disk of a connected server equal the recount -/
+structure DiskVolOk (c : Core) : Prop where
+  vol : ∀ s t, c.conn s = true → (c.cDisk s t).vol = recountVol c s t
+  rem : ∀ s t, c.conn s = true → (c.cDisk s t).rem = recountRem c s t
+
+/-- the EC shard counter of every disk of a connected server equals the recount -/
+def DiskEcOk (c : Core) : Prop := ∀ s t, c.conn s = true → (c.cDisk s t).ec = recountEc c s t
+
+/-- counters_eq_recount -/
+structure CountersOk (c : Core) (N : Nat) : Prop where
+  hier : HierOk c N
+  vols : DiskVolOk c
+  ec : DiskEcOk c
 
 end SwV.Spec.C12
